@@ -66,6 +66,15 @@ class COFF(BinFormat):
         return self.__file
 
     def __init__(self, f):
+        # malformed content is reported through the format's own error type:
+        try:
+            self._read(f)
+        except (COFFError, StructureError):
+            raise
+        except Exception as e:
+            raise COFFError("%s: %s" % (type(e).__name__, e))
+
+    def _read(self, f):
         self.__file = f
         self.Fhdr = FILEHDR(f)
         offset = self.Fhdr.size()
